@@ -202,7 +202,9 @@ def run_call(ga_t, ga_q, T, call):
             _, chrom, starts, ends, mode = call
             return ga_rows(ga_t.in_ranges(chrom, starts, ends, mode))
         raise RuntimeError('unknown call %r' % (call,))
-    except (ValueError, AssertionError, KeyError) as e:
+    except RuntimeError:
+        raise
+    except Exception as e:      # any exception of the code on a valid call is an answer that differs from the rows
         return Err(type(e).__name__)
 
 
